@@ -34,7 +34,7 @@ TECHNIQUE = "scripted timer firing + sys.monitoring delay/fault injection on the
 LEVEL_TEXT = (
     "Exploration (stress-sampled, not enumerated): every scripted timer placement relative to connect / first call / "
     "close / accept-loop poll (incl. between accept() and the connection count update) under several delay seeds, and "
-    "repeated N-process launcher races with injected line delays. Held = a probe call always completed while an accepted "
+    "repeated N-process launcher races with injected line delays, plus a wedged worker (listening, not accepting, backlog full) followed by another launch. Held = a probe call always completed while an accepted "
     "connection was open, and never more than one live worker per command."
 )
 LEVEL_NOTE = "threading.Timer in _transport.py replaced by a manually fired timer (its callback is the real one); flock (filelock) and the kernel are trusted; launcher schedules are sampled by delay injection"
